@@ -136,6 +136,16 @@ class ExonCorrector:
                     right_site = read_intron[1] if indel_count == 0 and mm_count <= 1 else ref_intron[1]
                     # logger.debug("Errors: %d, %d; res: %d" % (indel_count, mm_count, left_site))
 
+                # a reference site is used only if the intron stays non-empty and the neighbouring exons stay non-empty:
+                # it must start after the previous (corrected) intron / read start and end before the next read intron / read end
+                lower = corrected_introns[-1][1] + 1 if corrected_introns else read_region[0]
+                upper = read_introns[i + 1][0] - 1 if i + 1 < len(read_introns) else read_region[1]
+                if left_site <= lower:
+                    left_site = read_intron[0]
+                if right_site >= upper:
+                    right_site = read_intron[1]
+                if left_site > right_site:
+                    left_site, right_site = read_intron
                 corrected_introns.append((left_site, right_site))
         else:
             corrected_introns = read_introns
